@@ -160,3 +160,39 @@ FAMILIES["purity"] = {
         ]},
     ],
 }
+
+AM = r"^impl ArrayMeta \{"
+FAMILIES["arrmeth"] = {
+    "anchor": "src/algorithm/monadic/mod.rs Array::reverse_depth; src/array.rs ArrayMeta mark helpers, ArrayFlags methods, Array::validate, validate_shape, row_slice; src/algorithm/mod.rs ArrayCmpSlice",
+    "bound": "byte arrays of shapes [3], [4], [2,2], [2,3]; all 16 flag sets",
+    "header": "use crate::shim::*;\nuse std::ops::{Deref, DerefMut};\n",
+    "rewrites": (PUBCRATE, ("R4", r"(?m)^\s*#\[(?:track_caller|inline\(always\)|inline)\]\n", "", "attribute dropped")),
+    "dropped": "nothing inside the extracted items; ArrayFlags itself (a bitflags! type) and ArrayMetaInner are hand models in the shim",
+    "groups": [
+        {"prefix": "#[derive(Debug, Clone, Default)]\n", "items": [
+            {"kind": "lines", "name": "struct ArrayMeta", "file": "src/array.rs", "regex": r"^pub struct ArrayMeta\(Option<Arc<ArrayMetaInner>>\);\n",
+             "rewrites": (("R1", r"pub struct ArrayMeta\(Option", "pub struct ArrayMeta(pub Option", "field visibility"),)}]},
+        {"items": [
+            {"kind": "block", "name": "impl Deref for ArrayMeta", "file": "src/array.rs", "header": r"^impl Deref for ArrayMeta \{"},
+            {"kind": "block", "name": "impl DerefMut for ArrayMeta", "file": "src/array.rs", "header": r"^impl DerefMut for ArrayMeta \{"},
+            {"kind": "block", "name": "impl ArrayFlags", "file": "src/array.rs", "header": r"^impl ArrayFlags \{"},
+            {"kind": "fn", "name": "validate_shape", "file": "src/array.rs", "fn": "validate_shape"},
+            {"kind": "block", "name": "trait ArrayCmp", "file": "src/array.rs", "header": r"^pub trait ArrayCmp<U = Self> \{"},
+            {"kind": "block", "name": "impl ArrayCmp for u8", "file": "src/array.rs", "header": r"^impl ArrayCmp for u8 \{"},
+            {"kind": "block", "name": "struct ArrayCmpSlice", "file": "src/algorithm/mod.rs", "header": r"^#\[derive\(Debug\)\]\npub\(crate\) struct ArrayCmpSlice<'a, T>\(pub &'a \[T\]\);", "nobrace": True},
+            {"kind": "block", "name": "impl PartialEq for ArrayCmpSlice", "file": "src/algorithm/mod.rs", "header": r"^impl<T: ArrayValue> PartialEq for ArrayCmpSlice<'_, T> \{"},
+            {"kind": "lines", "name": "impl Eq for ArrayCmpSlice", "file": "src/algorithm/mod.rs", "regex": r"^impl<T: ArrayValue> Eq for ArrayCmpSlice<'_, T> \{\}\n"},
+            {"kind": "block", "name": "impl PartialOrd for ArrayCmpSlice", "file": "src/algorithm/mod.rs", "header": r"^impl<T: ArrayValue> PartialOrd for ArrayCmpSlice<'_, T> \{"},
+            {"kind": "block", "name": "impl Ord for ArrayCmpSlice", "file": "src/algorithm/mod.rs", "header": r"^impl<T: ArrayValue> Ord for ArrayCmpSlice<'_, T> \{"},
+        ]},
+        {"wrap": "impl ArrayMeta", "items": [
+            {"kind": "fn", "file": "src/array.rs", "impl": AM, "fn": f} for f in
+            ["get_inner_mut", "get_mut", "is_sorted_up", "is_sorted_down", "take_sorted_flags", "take_value_flags", "or_sorted_flags",
+             "mark_sorted_up", "mark_sorted_down", "reset_flags"]]},
+        {"wrap": "impl<T: ArrayValue> Array<T>", "items": [
+            {"kind": "fn", "name": "Array::row_slice", "file": "src/array.rs", "impl": r"^impl<T> Array<T> \{", "fn": "row_slice"},
+            {"kind": "fn", "name": "Array::validate", "file": "src/array.rs", "impl": r"^impl<T: ArrayValue> Array<T> \{", "fn": "validate"},
+            {"kind": "fn", "name": "Array::reverse_depth", "file": "src/algorithm/monadic/mod.rs", "impl": r"^impl<T: ArrayValue> Array<T> \{", "fn": "reverse_depth"},
+        ]},
+    ],
+}
